@@ -37,6 +37,10 @@ def make_restrike_case(rng, i):
     c = b + rng.randint(1, 30)            # the only note-off of the key
     other = [[ch, 67, rng.randrange(0, 60), rng.randint(2, 20), 90]]
     ev = [["on", a, ch, p, 70], ["on", b, ch, p, 80], ["off", c, ch, p]]
+    if i % 2 == 0:
+        # an excerpt that opens (or continues) with the release of a key on the very tick the key is struck again: a note-off
+        # that closes nothing, then the struck note whose end is what the operands differ in
+        ev = [["stray_off", b, ch, p], ["on", b, ch, p, 80], ["off", c, ch, p]]
     delta = rng.choice([1, 6, 12, -1]) if c - 1 > b else rng.choice([1, 6, 12])
     return {"restrike": {"events": ev, "other": other, "moved_off": c + delta}, "route": rng.choice(["build", "shuffled"]),
             "shuffle_seed": rng.randrange(10 ** 6), "pert": "restruck_note_off_moved"}
@@ -217,12 +221,14 @@ def _build_restrike(rs, off_tick, route, shuffle_seed):
     for e in rs["events"]:
         if e[0] == "on":
             msgs.append(gen.make_message("on", (e[2], e[3], e[4]), time=e[1]))
+        elif e[0] == "stray_off":
+            msgs.append(gen.make_message("off", (e[2], e[3]), time=e[1]))
         else:
             msgs.append(gen.make_message("off", (e[2], e[3]), time=off_tick))
     for (c, p, on, ln, v) in rs["other"]:
         msgs.append(gen.make_message("on", (c, p, v), time=on))
         msgs.append(gen.make_message("off", (c, p), time=on + ln))
-    msgs.sort(key=lambda m: m.time)
+    msgs.sort(key=lambda m: (m.time, 0 if m.message_type.value == "note_off" else 1))
     if route == "shuffled":
         random.Random(shuffle_seed).shuffle(msgs)
     s = Sequence()
